@@ -110,7 +110,7 @@ type arch struct {
 	Order    []string          // names in the order of the main packet gopar wrote
 	Prot     map[string][]byte // original contents
 	S, R     int
-	Index    string            // index file name (relative)
+	Index    string // index file name (relative)
 	IndexB   []byte
 	VolFiles []string          // volume file names (relative), sorted
 	VolB     map[string][]byte // their pristine bytes
